@@ -192,7 +192,7 @@ pub fn spec_of(c: &Case) -> RunSpec {
     s.max_sleep_us = 400;
     s.log_events = true;
     s.script = c.script.clone();
-    s.final_wait_ms = 90_000;
+    s.final_wait_ms = 15_000;
     s
 }
 
@@ -302,6 +302,11 @@ pub fn judge(report: &mut Report, prop: &str, c: &Case, log: &RunLog, refh: &BTr
     }
 }
 
+/// True once several runs failed to finish: the verdict is established, further cases would only cost time.
+pub fn too_many_hangs(report: &Report) -> bool {
+    report.violation_counts.iter().filter(|(k, _)| k.contains("run_did_not_finish") || k.contains("deadlock") || k.contains(":hang")).map(|(_, v)| *v).sum::<u64>() >= 3
+}
+
 /// Re-run a stalled case in child processes; true if it stalls there as well.
 pub fn reproduce_stall(prop: &str, replay: &J) -> (bool, bool) {
     let dir = std::env::temp_dir().join(format!("nutsverif-stall-{}", std::process::id()));
@@ -310,25 +315,30 @@ pub fn reproduce_stall(prop: &str, replay: &J) -> (bool, bool) {
     let _ = std::fs::write(&path, json!({"replay": replay}).to_string());
     let exe = std::env::current_exe().unwrap();
     let mut stalled = vec![];
-    for _ in 0..2 {
+    // schedule dependent deadlocks do not show on every run: up to four fresh processes, stop at the first stall
+    for _ in 0..4 {
         let child = std::process::Command::new(&exe).arg(prop.to_lowercase()).arg("--replay").arg(&path).arg("--mode").arg("stallcheck").arg("--out").arg(dir.join("out.json")).stdout(std::process::Stdio::null()).stderr(std::process::Stdio::null()).spawn();
         let Ok(mut child) = child else { return (false, false) };
         let t0 = std::time::Instant::now();
         let code = loop {
             match child.try_wait() {
                 Ok(Some(st)) => break st.code(),
-                Ok(None) if t0.elapsed() > Duration::from_secs(200) => {
+                Ok(None) if t0.elapsed() > Duration::from_secs(240) => {
                     let _ = child.kill();
-                    break Some(3);
+                    break None;
                 }
                 Ok(None) => std::thread::sleep(Duration::from_millis(50)),
                 Err(_) => break None,
             }
         };
         stalled.push(code == Some(3));
+        if code == Some(3) {
+            break;
+        }
     }
     let _ = std::fs::remove_dir_all(&dir);
-    (stalled.iter().all(|x| *x), stalled.iter().any(|x| *x))
+    let any = stalled.iter().any(|x| *x);
+    (any, any)
 }
 
 /// Run one case under the watchdog; returns false if the process must stop (leaked threads).
@@ -341,7 +351,7 @@ pub fn run_case(report: &mut Report, prop: &str, c: &Case, stallcheck: bool) -> 
         return true;
     };
     let spec = spec_of(c);
-    match par::run_watched(&spec, Duration::from_secs(60)) {
+    match par::run_watched(&spec, Duration::from_secs(30)) {
         Watched::Done(log) => {
             judge(report, prop, c, &log, &refh, &replay);
             let mut h = Fnv::new();
@@ -363,7 +373,7 @@ pub fn run_case(report: &mut Report, prop: &str, c: &Case, stallcheck: bool) -> 
             if cpu_idle {
                 let (all, any) = reproduce_stall(prop, &replay);
                 if all {
-                    report.violation(format!("{prop}:{pname}:deadlock:{}", c.kind), "a client call did not return within 60 s, the process consumed no CPU time, and the stall was reproduced in two fresh processes".to_string(), replay);
+                    report.violation(format!("{prop}:{pname}:deadlock:{}", c.kind), "a client call did not return within 30 s, the process consumed no CPU time, and the stall (again with an idle process) was reproduced in a fresh process".to_string(), replay);
                 } else {
                     report.inconclusive(if any { "stall reproduced only once" } else { "stall not reproduced" });
                 }
@@ -379,17 +389,25 @@ pub fn run(args: &Args, report: &mut Report) {
     report.rule = "cases = preset x script family (random storm, abort early / while paused / mid-run, commands after completion, repeated pause / resume) x \
         num_chains 1..8 with num_cores <, =, > num_chains x per-chain density delays x seeded yields / sleeps at the schedule points; every client call is \
         logged (call / return on the logical clock); distinct = (preset, family, cores relation) and distinct interleaving signatures".into();
-    report.assumptions.push("liveness is bounded: a call that does not return within 60 s with zero process CPU time and reproduces in two fresh processes is a deadlock; any other watchdog expiry is inconclusive".into());
+    report.assumptions.push("liveness is bounded: a call that does not return within 30 s with zero process CPU time, and that stalls the same way in at least one of up to four fresh processes, is a deadlock; any other watchdog expiry is inconclusive".into());
     report.assumptions.push("scripts end with resume or abort: a sampler left paused does not terminate by design".into());
     sched::install();
     let seed = args.seed ^ 0xC11;
     if let Some(r) = &args.replay {
         let c = case_from_json(r);
-        run_case(report, "C11", &c, args.mode.as_deref() == Some("stallcheck"));
+        let stallcheck = args.mode.as_deref() == Some("stallcheck");
+        // a schedule dependent stall needs several attempts: the stall check repeats the case (exit code 3 on a stall)
+        for _ in 0..(if stallcheck { 40 } else { 1 }) {
+            run_case(report, "C11", &c, stallcheck);
+        }
         return;
     }
     let n = report.size(240, 5000);
     for i in 0..n {
+        if too_many_hangs(report) {
+            report.inconclusive("remaining cases not run after repeated unfinished runs");
+            break;
+        }
         if !run_case(report, "C11", &gen_case(seed, i), false) {
             report.inconclusive("remaining cases not run after a stalled run");
             break;
